@@ -211,6 +211,7 @@ class World:
         self.trace = []
         self._id = 0
         self.send_faults = {}   # (node name, dst) -> errno: next send raises
+        self.fault_fired = []
         self.logs = LogCollector()
         self._loggers = []
         self.on_emit = []       # monitors: f(dgram)
@@ -237,7 +238,11 @@ class World:
         self.trace.append("t=%.3f %s" % (self.loop.time(), s))
 
     def send_fault(self, node, dst, data):
-        return self.send_faults.pop((node.name, dst), None)
+        e = self.send_faults.pop((node.name, dst), None)
+        if e is not None:
+            self.fault_fired.append((node.name, dst))
+            self.log("sendmsg to %s:%d raises OSError(%d)" % (dst[0][-2:], dst[1], e))
+        return e
 
     def emit(self, node_or_addr, dst, data):
         src = node_or_addr.addr if hasattr(node_or_addr, "addr") else node_or_addr
